@@ -266,7 +266,14 @@ fn run(ctx: &mut Ctx) {
             let kinds = [8u16, 21, 22, 23, 1, 12];
             let attr = kinds[(idx % 6) as usize];
             let bad: [&[u8]; 8] = [&[0xff], &[0xc0, 0x80], &[0xc1, 0xbf], &[0xe0, 0x80, 0x80], &[0xed, 0xa0, 0x80], &[0xf4, 0x90, 0x80, 0x80], &[0xf5, 0x80, 0x80, 0x80], &[0xe2, 0x82]];
-            let b = bad[((idx / 6) % 8) as usize];
+            let run: Vec<u8>;
+            let b: &[u8] = if (idx / 48) % 5 == 4 {
+                let class = *ctx.rng.pick(&[0x80u8, 0xbf, 0xa0, 0xc2, 0xe0, 0xf0, 0xff]);
+                run = vec![class; ctx.rng.range(2, 70) as usize];
+                &run
+            } else {
+                bad[((idx / 6) % 8) as usize]
+            };
             let good_len = ctx.rng.range(0, 10) as usize;
             let mut text = val::utf8_exact(&mut ctx.rng, good_len).into_bytes();
             // insert at a character boundary: at the start, or at the end
